@@ -20,12 +20,19 @@ def showRes (r : Res (List Float) × Stats) : String :=
   match r with
   | (.success y t links, st) => s!"ok success y={pFs y} t={t} links={links} calls={st.calls} draws={st.draws}"
   | (.fail y, st) => s!"ok fail y={pFs y} calls={st.calls} draws={st.draws}"
+  | (.raised, st) => s!"ok raised calls={st.calls} draws={st.draws}"
   | (.stuck, _) => "err stuck"
 
-def member (ms : Array Con) (i : Nat) (x : List Float) : Option (List Float) :=
-  match ms[i]? with
-  | some c => c.apply x
-  | none => some x
+def ofOpt (o : Option (List Float)) : Out (List Float) :=
+  match o with
+  | some y => .ret y
+  | none => .zdiv
+
+/-- deterministic DSL members: call number `j` goes to member `j % n` -/
+def member (ms : Array Con) (j : Nat) (x : List Float) : Out (List Float) :=
+  match ms[j % ms.size]? with
+  | some c => ofOpt (c.apply x)
+  | none => .ret x
 
 def handle : Handler
   | .sym "and" :: args => Id.run do
@@ -47,7 +54,7 @@ def handle : Handler
     let some x := (kw? args "x").bind Val.asFloats? | return "bad-op"
     let some m := (kw? args "member").bind parseCon | return "bad-op"
     let some draws := (kw? args "draws").bind Val.asList? |>.bind (·.mapM parseDrawVec) | return "bad-op"
-    return showRes (not_ m.apply randVec cap x draws)
+    return showRes (not_ (fun _ v => ofOpt (m.apply v)) randVec cap x draws)
   | .sym "con" :: args => Id.run do   -- plain DSL evaluation (twin test of harness/dsl.py)
     let some x := (kw? args "x").bind Val.asFloats? | return "bad-op"
     let some m := (kw? args "member").bind parseCon | return "bad-op"
